@@ -238,6 +238,13 @@ def parts_producers(ctx: Ctx) -> List[Tuple[FuncInfo, ast.AST, Set[str]]]:
     return out
 
 
+def _renamed_stringifiers() -> tuple:  # type: ignore[type-arg]
+    """What `_tokens` / `_encode` are called on this tree when they were renamed (sa/loader.py ANCHOR_ROLES)."""
+    from sa.loader import ROLE_FILLERS
+
+    return tuple(v[1] for k, v in ROLE_FILLERS.items() if k in (("JSONPointer", "_tokens"), ("JSONPointer", "_encode")))
+
+
 def _uses_raw_parts(fn: FuncInfo) -> List[ast.AST]:
     """Comparisons / hashes of `.parts` that are not mapped through str."""
     bad: List[ast.AST] = []
@@ -245,7 +252,7 @@ def _uses_raw_parts(fn: FuncInfo) -> List[ast.AST]:
     def stringified(e: ast.AST) -> bool:
         # tuple(str(p) for p in X.parts) / map(str, X.parts) / [str(p) for ...]
         for n in ast.walk(e):
-            if isinstance(n, ast.Call) and callee_name(n) in ("str", "map", "_tokens", "_encode"):
+            if isinstance(n, ast.Call) and callee_name(n) in ("str", "map", "_tokens", "_encode") + _renamed_stringifiers():
                 return True
         return False
 
